@@ -130,7 +130,7 @@ PROPS = {
         title='Compiling any verified program returns Ok or Err and never panics or overruns (x86-64 JIT part)',
         parts=[
             Part('jit', lambda h: h.startswith('arm_') or h in ('resolve_jumps_contract', 'map_register_contract', 'epilogue_contract') or h.startswith('prologue_'),
-                 lambda h, c, info=None: (in_file(c, 'src/jit.rs') and kani.is_panic_check(c)) or 'shadow Vec' in desc(c) or 'index out of bounds' in desc(c)
+                 lambda h, c, info=None: (in_file(c, 'src/jit.rs') and kani.is_panic_check(c)) or (in_file(c, 'src/shadow.rs') and ('shadow Vec' in desc(c) or 'index out of bounds: the len' in desc(c)))
                  or any(k in desc(c) for k in ('counting pass sizes', 'emitted bytes stay inside', 'fails only for an unregistered', 'both passes agree', 'pc_locs[pc]', 'resolve_jumps succeeds', 'pc_locs indexed', 'no other byte changes', 'rel32 =')),
                  'per opcode: no panic in the arm / encoders / map_register under the verifier facts; the counting pass (write_enabled = false) advances offset exactly like the emission pass (so the buffer sized by pass 1 fits pass 2 and the emit_bytes! assert is unreachable); compile error only for an unregistered helper; resolve_jumps indexes pc_locs in range and touches only the 4 displacement bytes'),
         ],
@@ -368,8 +368,9 @@ def check(pid, tier, seed, use_cache, jobs, t0):
         violations=len(violations),
         known_findings=known_lines,
     )
-    os.makedirs(os.path.join(VERIF, 'evidence'), exist_ok=True)
-    with open(os.path.join(VERIF, 'evidence', pid + '.json'), 'w') as f:
+    evdir = os.path.join(os.environ['VERIF_WORK'], 'evidence') if os.environ.get('VERIF_WORK') else os.path.join(VERIF, 'evidence')
+    os.makedirs(evdir, exist_ok=True)
+    with open(os.path.join(evdir, pid + '.json'), 'w') as f:
         json.dump(ev, f, indent=1)
     for line in known_lines:
         print(line)
